@@ -17,6 +17,10 @@
     password to 32 bytes — the writer/user-side helper and the inline copy on the reader's owner
     path — applies the same truncation discipline (same set of string operations); a difference
     means a password that one side accepts is refused by the other.
+ R8 the decryption walker reaches every string: the recursive `decrypt_object_if_needed` handles String, Stream, Dictionary and
+    Array itself, and any variant filter it applies to the elements of a container (a `matches!`/`match` predicate that decides
+    whether a container needs walking) names all four of those variants if it names any — a filter that forgets Array leaves
+    the strings of nested arrays (`/Opt [[(CA)(California)] ..]`) as ciphertext.
 Not decided: equality of decrypted content with the plaintext; permission bit values.
 """
 from .. import lib as L
@@ -35,7 +39,10 @@ def keys_set_in(facts, fid, depth=1):
     if depth:
         for c in facts.callees.get(fid, ()):
             f2 = facts.fns.get(c)
-            if f2 is not None and f2.ret and "Dictionary" in f2.ret and c.startswith("writer::"):
+            if f2 is None or not c.startswith("writer::"):
+                continue
+            # callees that build the dictionary (return it) or fill one they are handed (`&mut Dictionary` parameter)
+            if (f2.ret and "Dictionary" in f2.ret) or any("&mut" in p_ and "Dictionary" in p_ for p_ in (f2.params or [])):
                 fns.append(c)
     for f in fns:
         for fn in L.group(facts, f):
@@ -45,6 +52,7 @@ def keys_set_in(facts, fid, depth=1):
 
 
 def run(ctx):
+    r8_walker_variants(ctx)
     facts = ctx.facts
     wt = ctx.fn(W + "write_trailer", "anchor")
     wxs = ctx.fn(W + "write_xref_stream", "anchor")
@@ -299,3 +307,55 @@ def run(ctx):
                 ctx.ok("R7", key, "same truncation discipline (%s)" % (sorted(names) or "plain byte truncation"))
         if len(prof) == 1:
             ctx.ok("R7", "padding-siblings:single-implementation", sorted(prof)[0])
+
+
+def r8_walker_variants(ctx):
+    from .. import tables as T
+    facts = ctx.facts
+    fid = R + "decrypt_object_if_needed"
+    fn = ctx.fn(fid, "R8")
+    NEED = {"String", "Stream", "Dictionary", "Array"}
+
+    def variants(p):
+        out = set()
+        if p[0] == "ts" and isinstance(p[1], dict):
+            out.add(p[1].get("def", "").split("::")[-1])
+        elif p[0] == "or":
+            for q in p[1]:
+                out |= variants(q)
+        elif p[0] in ("ref",):
+            for q in p[1]:
+                out |= variants(q)
+        return out
+    n = 0
+    for f in L.group(facts, fid) + [facts.fns[k] for k in facts.fns if k.startswith(fid.rsplit("::", 1)[0] + "::decrypt_object_with")]:
+        for i, m in enumerate(facts.matches.get(f.id, [])):
+            if "PdfObject" not in m["sty"]:
+                continue
+            for a in m["arms"]:
+                vs = variants(a["pat"]) & NEED
+                if not vs:
+                    continue
+                n += 1
+                is_main = len(m["arms"]) >= 4 and not f.id.endswith("}")
+                if is_main:
+                    continue
+                key = "%s:element-filter:%s" % (L.short(f.parent or f.id), "+".join(sorted(vs)))
+                if vs == NEED:
+                    ctx.ok("R8", key, "the filter names all four string-bearing variants", "%s:%d" % (m["file"], a["line"]))
+                else:
+                    ctx.violation("R8", key, "a predicate over container elements in the decryption walker matches %s but not %s: a "
+                                  "container whose direct elements are only of the missing kind is returned without being walked, so "
+                                  "the strings inside it stay encrypted (e.g. an array of arrays of strings such as a choice field's "
+                                  "/Opt with export values)" % (sorted(vs), sorted(NEED - vs)), "%s:%d" % (m["file"], a["line"]))
+    # the dispatch itself has an arm for each of the four
+    mains = [m for f in L.group(facts, fid) for m in facts.matches.get(f.id, []) if "PdfObject" in m["sty"] and len(m["arms"]) >= 4]
+    got = set()
+    for m in mains:
+        for a in m["arms"]:
+            got |= variants(a["pat"])
+    if NEED <= got:
+        ctx.ok("R8", "decrypt_object_if_needed:dispatch-arms", "String, Stream, Dictionary and Array each have an arm", fn.where())
+    else:
+        ctx.violation("R8", "decrypt_object_if_needed:dispatch-arms", "the decryption dispatch has no arm for %s" % sorted(NEED - got), fn.where())
+    ctx.floor("R8", "variant patterns in the decryption walker", n, 4)
